@@ -181,6 +181,9 @@ def inline(inference_state, names):
     if any(n.tree_name is None for n in names):
         raise RefactoringError("Cannot inline builtins/extensions")
 
+    if any(n.tree_name.parent.type in ('global_stmt', 'nonlocal_stmt') for n in names):
+        raise RefactoringError("Cannot inline a name that is declared global or nonlocal")
+
     definitions = [n for n in names if n.tree_name.is_definition()]
     if len(definitions) == 0:
         raise RefactoringError("No definition found to inline")
